@@ -19,6 +19,7 @@ import (
 	"io"
 	"os"
 	"os/exec"
+	"sort"
 	"strings"
 	"syscall"
 	"testing/iotest"
@@ -599,11 +600,61 @@ func (g *c04Gen) c15Special(kind string, k int) *c04Case {
 	return cs
 }
 
+// c15Saturated: a CSI case on a small geometry whose records use EVERY reachable bin of the geometry on each
+// reference: one record per bin of every level (a leaf bin: one base at its left edge; an inner bin: two bases
+// straddling its first two children), coordinate sorted.  With minShift >= 2 that is every bin, so that with the
+// statistics pseudo-bin nBins = binLimit + 1, the largest count readBins accepts (csi_built_bin_count); with
+// minShift 1 the last leaf bin cannot be used (its only intervals end beyond the last valid position).
+func (g *c04Gen) c15Saturated(ms, depth int) (*c04Case, int) {
+	rnd := g.rnd
+	cs := &c04Case{Kind: "csi", MinShift: ms, Depth: depth, Version: 2, Sorted: true, Strategy: g.strategy()}
+	if rnd.coin(1, 3) {
+		cs.Version = 1
+	}
+	if rnd.coin(1, 3) {
+		cs.Aux = hexs(rnd.bytes(rnd.rng(1, 8)))
+	}
+	limit := 1<<uint(ms+3*depth) - 2 // the largest valid Start and End
+	used := 0
+	rid := 0
+	if rnd.coin(1, 4) {
+		rid = 1 // reference 0 has no record
+	}
+	for n := rnd.rng(1, 2); n > 0; n-- {
+		var recs []c04Rec
+		for l := 0; l <= depth; l++ {
+			w := 1 << uint(ms+3*(depth-l)) // width of a bin of level l
+			for x := 0; x < 1<<uint(3*l); x++ {
+				s, e := x*w, x*w+1
+				if l < depth {
+					cw := w >> 3
+					s, e = x*w+cw-1, x*w+cw+1
+				}
+				if e > limit {
+					continue
+				}
+				recs = append(recs, c04Rec{Rid: rid, Start: s, End: e, Placed: true, Mapped: !rnd.coin(1, 6)})
+			}
+		}
+		sort.SliceStable(recs, func(i, j int) bool { return recs[i].Start < recs[j].Start })
+		used = len(recs)
+		cs.Recs = append(cs.Recs, recs...)
+		cs.Queries = append(cs.Queries, c04Query{rid, 0, limit}, c04Query{rid, limit - 1, limit},
+			c04Query{rid, rnd.rng(0, limit-1), limit}, c04Query{rid, 0, 1})
+		rid++
+	}
+	if rnd.coin(1, 2) {
+		cs.Recs = append(cs.Recs, g.unplaced(cs))
+	}
+	g.layout(cs.Recs)
+	return cs, used
+}
+
 func checkC15(c *ctx) {
 	r := c.res
 	c04MemGuard(r)
 	r.Rule = "cases: the C04 generator (bai through bam.Index, csi with 12 geometries / v1,v2 / aux bytes, tbx with header fields and shuffled name pools) plus structural cases " +
-		"(no record, unplaced only = zero references, late reference = empty earlier references, unmapped only). Each case: statistics vs true counts, write, read, write again, accessor values and all Chunks answers before/after; " +
+		"(no record, unplaced only = zero references, late reference = empty earlier references, unmapped only) and saturated small CSI geometries ((1,1) (2,1) (1,2) (2,2) (3,1) (5,1) (2,3): one record per reachable bin of every level on each reference, i.e. nBins = binLimit+1 for minShift >= 2). Each case: statistics vs true counts, write, read, write again, accessor values and all Chunks answers before/after; " +
 		"for serialisations up to 6000 bytes additionally 4 foreign encodings of the same index made by the harness's own format codec (reversed order + pseudo-bin first, statistics and trailer dropped, trailer dropped, shuffled bins) " +
 		"are read, written, read and written again. An evaluation is one (case) or (foreign encoding); non-trivial = the index has at least one reference with a record (case) / more than 40 bytes (foreign)."
 	if c.replay != "" {
@@ -685,6 +736,24 @@ func checkC15(c *ctx) {
 		cs.c15Run(c, d, &impl)
 		count(cs)
 		r.hist("corpus.tbx-empty-name")
+	}
+	// saturated small CSI geometries: every reachable bin of the geometry used on a reference
+	for _, gm := range [][2]int{{1, 1}, {2, 1}, {1, 2}, {2, 2}, {3, 1}, {5, 1}, {2, 3}} {
+		reps := 2
+		if c.thorough() {
+			reps = 6
+		}
+		for k := 0; k < reps; k++ {
+			cs, used := g.c15Saturated(gm[0], gm[1])
+			cs.c15Run(c, d, &impl)
+			count(cs)
+			total := (1<<uint(3*(gm[1]+1)) - 1) / 7
+			if used == total {
+				r.hist("saturated.csi.all-bins")
+			} else {
+				r.hist(fmt.Sprintf("saturated.csi.all-but-%d", total-used))
+			}
+		}
 	}
 	for i := 0; i < 8; i++ {
 		for _, k := range kinds {
